@@ -6,7 +6,7 @@ From Coq Require Import List String Ascii Bool Arith.
 From NGF Require Export lib.CaseLib ngx.Lexer ngx.Regex ngx.SymLex C04.Valid.
 Import ListNotations.
 
-(* kinds: 0 validatePath, 1 validateEscapedStringNoVarExpansion, 2 validateHeaderName, 3 ValidateServiceName,
+(* kinds 8-12: the exported validator methods the graph calls (same models). kinds: 0 validatePath, 1 validateEscapedStringNoVarExpansion, 2 validateHeaderName, 3 ValidateServiceName,
    4 ValidateNginxDuration, 5 ValidateNginxSize, 6 ValidateEndpoint, 7 validateEscapedString *)
 Record case := VCase { v_kind : nat; v_value : string; v_accepted : bool }.
 
@@ -20,14 +20,19 @@ Definition model_verdict (k : nat) (s : chars) : option bool :=
   | 5 => Some (validate_size s)
   | 6 => Some (validate_endpoint s)
   | 7 => Some (validate_escaped s)
+  | 8 | 10 | 12 => Some (validate_escaped_novar s)     (* ValidateFilterHeaderValue, ValidateHostname, GenericValidator *)
+  | 9 => Some (validate_header_name s)                (* ValidateFilterHeaderName *)
+  | 11 => Some (validate_path s)                      (* HTTPPathValidator.ValidatePath *)
   | _ => None
   end.
 
 (* what acceptance must guarantee about the rendered position *)
 Definition class_holds (k : nat) (s : chars) : bool :=
   match k with
-  | 0 => match s with [] => true | _ => bare_ok s end
-  | 1 => dq_ok s
+  | 0 | 11 => match s with [] => true | _ => bare_ok s end
+  (* rendered inside double quotes in directives whose arguments NGINX interpolates: absorbed whole, and no dollar at all
+     (NGINX has no escape for the dollar: a backslash before it does not stop the variable) *)
+  | 1 | 8 | 10 | 12 => dq_ok s && negb (contains_char "$"%char s)
   | 7 => match absorb_quote """"%char false false s with Some (false, _) => true | _ => false end
   | _ => match s with [] => false | _ => all_plain s end
   end.
